@@ -1,6 +1,6 @@
 (* C06 — optimize terminates, respects purity, and reaches a minimal fixpoint. Property theorems only. *)
 Require Import ZArith NArith Bool List Arith. Import ListNotations.
-Require Import F64 Dec Types Generic Lang Opt IO OptFacts OptFacts2 OptFacts3 OptFacts4.
+Require Import F64 Dec Types Generic Lang Opt IO OptFacts OptFacts2 OptFacts3 OptFacts4 GenStruct.
 
 (* termination with the closed-form fuel the extracted run_opt uses: never OutOfFuel, for every tree and environment *)
 Theorem C06_terminates : forall E e acc, fst (fst (optimize_t E (opt_fuel e) e acc)) <> Generic.OOutOfFuel.
@@ -38,3 +38,14 @@ Example C06_example : let E := mk_env [] [([107%N], (KConst (VNum (of_int 7)), P
   expr_eqb (snd (fst (optimize_t E (opt_fuel e) e []))) (EBin Plus (ELit (VNum (of_int 7))) (EBin Plus (ECall [105%N] []) (EVar [120%N]))) = true /\
   length (snd (optimize_t E (opt_fuel e) e [])) = 1%nat.
 Proof. vm_compute. auto. Qed.
+
+(* tie (a): the tree walks of the optimizer are the ones in the source today - the arms of `match expression` in transform_ternary and fold_constants, in source order
+   (node kind, guard, body identified by its normalised text; an unknown text becomes WOther n), the loop of `optimize` and `expressions_are_const`, regenerated on every run.
+   Opt.v (tt, fold, optimize_t) was written from exactly these arms. *)
+Theorem C06_optimizer_arms_are_the_codes :
+  gen_transform_ternary_arms = [(NUnary, GNone, TRecRight); (NBinary, GNone, TRecLeftRight); (NTernary, GNone, TRecLeftMiddleRight); (NArray, GNone, TRecAll);
+                                (NCall, GIsIfThen, TRewriteIfExactlyThreeElseRecAll); (NCall, GNone, TRecAll); (NAnyOther, GNone, WNothing)] /\
+  gen_fold_constants_arms = [(NUnary, GNone, FEvalIfOperandLiteralElseRec); (NBinary, GNone, FEvalIfBothLiteralElseRecLeftRight); (NTernary, GNone, FSelectBranchIfLiteralConditionElseRecAll);
+                             (NArray, GAllLiteral, FEvalWhole); (NArray, GNone, FRecAll); (NCall, GAllLiteral, FEvalWholeIfExistsPure); (NCall, GNone, FRecAll); (NAnyOther, GNone, WNothing)] /\
+  gen_fold_constants_ends_ok = true /\ gen_expressions_are_const_as_modelled = true /\ gen_optimize_loop_as_modelled = true.
+Proof. repeat split; reflexivity. Qed.
